@@ -19,7 +19,9 @@ META = {
                   "is read back unchanged; convert_require towards the path or the luau mode keeps the target for every "
                   "requiring file and target below the working directory when no alias is configured, provided the target "
                   "is the first existing candidate of its stripped form (for all directory depths, names and file systems), "
-                  "and on a bounded universe with aliases and absolute targets by exhaustive evaluation. The unrestricted "
+                  "for a target alias whose value is exactly the resolved file (also a module-folder file) whenever that file "
+                  "exists, and on a bounded universe with directory- and file-valued aliases and absolute targets by "
+                  "exhaustive evaluation. The unrestricted "
                   "statement is refuted in the model and on the code (seven recorded finding classes). Every run compares "
                   "the model with the compiled locators / generate_require on all subsets of the candidate files x "
                   "requiring files x require strings x configurations, and re-checks documented resolution and target "
